@@ -1170,3 +1170,110 @@ func init() {
 			}
 		}})
 }
+
+func init() {
+	register(&Rule{ID: "PS.end", Min: 3, Text: "a closed subscription ends the stream: in the RPC layer, wherever events are received from a subscription (a select arm on Subscription.Events() with the comma-ok form), the not-ok edge — the subscription was closed, e.g. pruned after too many failed deliveries — either returns from the streaming function itself, or, in a forwarding goroutine, reports it with a send before returning, so that the main loop can end the stream. A forwarder that just returns leaves the stream open and silent: the watcher waits for ever and misses every later change",
+		Run: func(x *Ctx) {
+			n := 0
+			spawned := map[*ssa.Function]bool{}
+			for _, fn := range x.P.FuncsIn("server/rpc") {
+				for _, b := range fn.Blocks {
+					for _, ins := range b.Instrs {
+						if g, ok := ins.(*ssa.Go); ok {
+							if mc, isMC := g.Call.Value.(*ssa.MakeClosure); isMC {
+								if f, isF := mc.Fn.(*ssa.Function); isF {
+									spawned[f] = true
+								}
+							}
+						}
+					}
+				}
+			}
+			for _, fn := range x.P.FuncsIn("server/rpc") {
+				if len(fn.Blocks) == 0 || (fn.Origin() != nil && fn.Origin() != fn) {
+					continue
+				}
+				i := 0
+				for _, b := range fn.Blocks {
+					for _, ins := range b.Instrs {
+						sel, ok := ins.(*ssa.Select)
+						if !ok {
+							continue
+						}
+						fromEvents := false
+						for _, st := range sel.States {
+							if st.Dir != types.RecvOnly {
+								continue
+							}
+							if c, isC := prog.Strip(st.Chan).(*ssa.Call); isC {
+								name := ""
+								if c.Call.IsInvoke() {
+									name = c.Call.Method.Name()
+								} else if o := prog.CallObj(c); o != nil {
+									name = o.Name()
+								}
+								if name == "Events" {
+									fromEvents = true
+								}
+							}
+						}
+						if !fromEvents {
+							continue
+						}
+						// the comma-ok flag of the select
+						var okv ssa.Value
+						for _, r := range *sel.Referrers() {
+							if ex, isE := r.(*ssa.Extract); isE && ex.Index == 1 {
+								okv = ex
+							}
+						}
+						if okv == nil {
+							continue
+						}
+						for _, bb := range fn.Blocks {
+							iff := prog.IfOf(bb)
+							if iff == nil || iff.Cond != okv {
+								continue
+							}
+							i++
+							n++
+							closedSucc := bb.Succs[1]
+							region := map[*ssa.BasicBlock]bool{closedSucc: true}
+							for _, d := range fn.Blocks {
+								if closedSucc.Dominates(d) {
+									region[d] = true
+								}
+							}
+							reports, returns := false, false
+							for d := range region {
+								for _, di := range d.Instrs {
+									switch t := di.(type) {
+									case *ssa.Send:
+										reports = true
+									case *ssa.Select:
+										for _, st := range t.States {
+											if st.Dir == types.SendOnly {
+												reports = true
+											}
+										}
+									case *ssa.Return:
+										returns = true
+									}
+								}
+							}
+							k := fmt.Sprintf("func=%s events-receive#%d closed-subscription-ends-the-stream", prog.FnName(fn), i)
+							if spawned[fn] {
+								x.check(reports, k, x.pos(iff), "the forwarder reports the closed subscription before it returns",
+									"the forwarding goroutine just returns when its subscription is closed: the main loop of the stream never learns of it, the stream stays open and silent, and the watcher — pruned after a stall — misses every later change without any sign")
+							} else {
+								x.check(returns, k, x.pos(iff), "the streaming function returns when the subscription is closed", "the streaming function goes on after its subscription was closed")
+							}
+						}
+					}
+				}
+			}
+			if n < 3 {
+				x.C.Vacuous(x.id()+" receives from a subscription", n, 3)
+			}
+		}})
+}
